@@ -600,6 +600,50 @@ fn random_mask(rng: &mut Rng, n: usize) -> (Option<Vec<bool>>, &'static str) {
 /// keep their index and their bit-identical position, so state that wrongly
 /// survives between calls (caches keyed by index or position, scratch buffers)
 /// has something to be stale about.
+pub const INVALID_KINDS: &[&str] = &["dup", "outside", "short_mask"];
+
+/// A caller's mistake: an input derived from `base` that the library is not required to handle -
+/// two generators at the same position (same number of generators as `base`), one generator
+/// outside the box, a mask that is too short. The call is expected to panic (or to return garbage)
+/// identically in the parallel and in the sequential build; what matters is what a caller that
+/// catches the failure gets from its NEXT, valid call.
+pub fn derive_invalid(rng: &mut Rng, base: &Case) -> Case {
+    let mut c = base.clone();
+    let n = c.gens.len();
+    let mut kind = *rng.pick(INVALID_KINDS);
+    if n < 2 {
+        kind = "outside";
+    }
+    match kind {
+        "dup" => {
+            let i = rng.below(n as u64) as usize;
+            let mut j = rng.below(n as u64) as usize;
+            if j == i {
+                j = (i + 1) % n;
+            }
+            c.gens[j] = c.gens[i];
+        }
+        "short_mask" => {
+            let k = 1 + rng.below((n - 1).min(3) as u64) as usize;
+            let mut m = match &c.mask {
+                Some(m) => m.clone(),
+                None => vec![true; n],
+            };
+            m.truncate(n - k);
+            c.mask = Some(m);
+        }
+        _ => {
+            let i = rng.below(n.max(1) as u64) as usize;
+            let a = rng.below(c.dim as u64) as usize;
+            let far = if c.periodic { 2.5 + 2.0 * rng.f64() } else { 0.25 + 2.0 * rng.f64() };
+            let sign = if rng.chance(0.5) { 1.0 } else { -1.0 };
+            c.gens[i][a] = if sign > 0.0 { c.anchor[a] + c.width[a] * (1.0 + far) } else { c.anchor[a] - c.width[a] * far };
+        }
+    }
+    c.family = format!("{}+invalid:{}", base.family, kind);
+    c
+}
+
 pub fn derive_variant(rng: &mut Rng, base: &Case) -> Case {
     let mut c = base.clone();
     let kind = *rng.pick(VARIANT_KINDS);
